@@ -483,7 +483,7 @@ def bounded(tier, seed):
     streams = []
     greet = [b"\x05\x01\x00", b"\x05\x02\x00\x02", b"\x05\x01\x02", b"\x04\x01\x00", b"\x05\x00", b"\x05\x03\x01\x02\x03"]
     authmsgs = [b"\x01\x04user\x04pass", b"\x01\x04user\x03bad", b"\x01\x00\x00"]
-    reqs = [b"\x05\x01\x00\x01\x7f\x00\x00\x01\x1f\x90", b"\x05\x01\x00\x03\x0bexample.com\x01\xbb", b"\x05\x01\x00\x04" + bytes(range(16)) + b"\x00\x50",
+    reqs = [b"\x05\x01\x00\x01\x7f\x00\x00\x01\x1f\x90", b"\x05\x01\x00\x03\x0bexample.com\xc3\x50", b"\x05\x01\x00\x01\x0a\x00\x00\x01\xff\xff", b"\x05\x01\x00\x04" + bytes(range(16)) + b"\x00\x50",
             b"\x05\x02\x00\x01\x7f\x00\x00\x01\x1f\x90", b"\x05\x01\x00\x05aaaaaa", b"\x05\x01\x00\x03\x00\x00\x50", b"\x05\x01\x00\x03\x02\xc3\xa9\x00\x50"]
     tails = [b"", b"G", b"GET / HTTP/1.1\r\n\r\n"]
     for g in greet:
